@@ -9,7 +9,7 @@ import hashlib, os, subprocess, sys, glob, shutil, concurrent.futures
 
 VERIF = os.path.dirname(os.path.dirname(os.path.abspath(__file__)))
 REPO = os.environ.get("MMD6_REPO", "/repo")
-BUILD = os.path.join(VERIF, ".build")
+BUILD = os.environ.get("VERIF_BUILD") or os.path.join(VERIF, ".build")      # (VERIF_BUILD: private build directory for runs against a scratch tree)
 GUARD = "MMD6_VERIF"
 
 SAN = ["-fsanitize=address,undefined", "-fno-sanitize-recover=undefined", "-fno-omit-frame-pointer"]
